@@ -198,8 +198,102 @@ def sandwich_programs():
     return out
 
 
+# ordinary programs of some size: state that builds up over many operations (allocations, calls, iterations), several features per expression, aliases through several hops
+WORKLOADS = [
+ ('workload:linked-list', '''
+function cons(h, t) -> object begin let head = h; let tail = t; function sum() -> if null == this.tail then this.head else this.head + this.tail.sum(); function nth(n) -> if n == 0 then this.head else this.tail.nth(n - 1); function len() -> if null == this.tail then 1 else 1 + this.tail.len() end;
+let l = null; let i = 0;
+while i < 20 do begin l <- cons(i * i, l); i <- i + 1 end;
+let s = 0; let p = l;
+while null != p do begin s <- s + p.head; p <- p.tail end;
+print("~ ~ ~ ~ ~\\n", l.sum(), s, l.len(), l.nth(0), l.nth(19))
+'''),
+ ('workload:counters-in-an-array', '''
+function counter(start) -> object begin let n = start; let calls = 0; function inc(k) -> begin this.calls <- this.calls + 1; this.n <- this.n + k; this.n end end;
+let cs = array(12, null); let i = 0;
+while i < 12 do begin cs[i] <- counter(i * 10); i <- i + 1 end;
+i <- 0;
+while i < 12 do begin let j = 0; while j < i do begin cs[i].inc(j); j <- j + 1 end; i <- i + 1 end;
+i <- 0; let total = 0;
+while i < 12 do begin print("~:~/~ ", i, cs[i].n, cs[i].calls); total <- total + cs[i].n; i <- i + 1 end;
+print("\\ntotal ~\\n", total)
+'''),
+ ('workload:sieve', '''
+let n = 40; let sieve = array(n, true); sieve[0] <- false; sieve[1] <- false;
+let i = 2;
+while i * i < n do begin if sieve[i] then begin let j = i * i; while j < n do begin sieve[j] <- false; j <- j + i end end; i <- i + 1 end;
+i <- 0; let count = 0;
+while i < n do begin if sieve[i] then begin print("~ ", i); count <- count + 1 end; i <- i + 1 end;
+print("\\n~ primes\\n", count)
+'''),
+ ('workload:matrix', '''
+let n = 5; let k = 0 - 1; let m = array(n, array(n, k <- k + 1));
+let t = array(n, null); let i = 0;
+while i < n do begin t[i] <- array(n, 0); i <- i + 1 end;
+i <- 0;
+while i < n do begin let j = 0; while j < n do begin t[j][i] <- m[i][j] * 2; j <- j + 1 end; i <- i + 1 end;
+let trace = 0; i <- 0;
+while i < n do begin trace <- trace + t[i][i]; i <- i + 1 end;
+print("~\\n~\\n~ ~\\n", m, t, trace, m[4][4])
+'''),
+ ('workload:stack', '''
+function stack(cap) -> object begin let items = array(cap, null); let top = 0; function push(v) -> begin this.items[this.top] <- v; this.top <- this.top + 1; this end; function pop() -> begin this.top <- this.top - 1; this.items[this.top] end; function size() -> this.top end;
+let s = stack(40); let i = 0;
+while i < 30 do begin s.push(i * 3); if i % 4 == 3 then print("~ ", s.pop() + s.pop()); i <- i + 1 end;
+print("\\nsize ~ top ~\\n", s.size(), s.pop());
+let r = stack(5); r.push(1).push(2).push(3); print("~ ~ ~\\n", r.pop(), r.pop(), r.pop())
+'''),
+ ('workload:memo-fibonacci', '''
+let memo = array(30, null); let calls = 0;
+function fib(n) -> begin calls <- calls + 1; if n < 2 then n else if memo[n] != null then memo[n] else begin let v = fib(n - 1) + fib(n - 2); memo[n] <- v; v end end;
+print("~ ~ ~\\n", fib(25), fib(20), calls);
+function slow(n) -> if n < 2 then n else slow(n - 1) + slow(n - 2);
+print("~\\n", slow(12))
+'''),
+ ('workload:accounts', '''
+let base = object begin let fee = 1; let balance = 0; function deposit(a) -> begin this.balance <- this.balance + a; this.balance end; function kind() -> 0 end;
+function account(start) -> object extends base begin let balance = start; let ops = 0; function withdraw(a) -> begin this.ops <- this.ops + 1; if a > this.balance then 0 - 1 else begin this.balance <- this.balance - a; this.balance end end; function kind() -> 1 end;
+function premium(start) -> object extends account(start) begin let bonus = 5; function kind() -> 2 end;
+let a = account(100); let b = premium(50); let accounts = array(3, null); accounts[0] <- a; accounts[1] <- b; accounts[2] <- base;
+let i = 0;
+while i < 15 do begin let acc = accounts[i % 2]; print("~ ", acc.withdraw(i * 3)); i <- i + 1 end;
+print("\\n~ ~ ~ ~ ~\\n", a.balance, a.ops, b.kind(), accounts[2].kind(), a.deposit(7));
+print("~ ~\\n", a.balance, base.balance)
+'''),
+ ('workload:collatz', '''
+function steps(n) -> begin let c = 0; while n != 1 do begin if n % 2 == 0 then n <- n / 2 else n <- 3 * n + 1; c <- c + 1 end; c end;
+let i = 1; let best = 0; let arg = 0;
+while i < 16 do begin let s = steps(i); print("~ ", s); if s > best then begin best <- s; arg <- i end; i <- i + 1 end;
+print("\\nlongest ~ at ~\\n", best, arg)
+'''),
+ ('workload:table', '''
+let i = 1;
+while i < 9 do begin let j = 1; while j < 9 do begin if j >= i then print("~ ", i * j) else print(". "); j <- j + 1 end; print("\\n"); i <- i + 1 end
+'''),
+ ('workload:gcd-lcm', '''
+function gcd(a, b) -> begin while b != 0 do begin let t = b; b <- a % b; a <- t end; a end;
+function lcm(a, b) -> a / gcd(a, b) * b;
+let pairs = array(6, null); pairs[0] <- array(2, 12); pairs[1] <- array(2, 0); pairs[1][0] <- 35; pairs[1][1] <- 14; pairs[2] <- array(2, 17); pairs[2][1] <- 5; pairs[3] <- array(2, 100); pairs[3][1] <- 75; pairs[4] <- array(2, 81); pairs[4][1] <- 27; pairs[5] <- array(2, 1);
+let i = 0;
+while i < 6 do begin let p = pairs[i]; print("gcd(~,~)=~ lcm=~\\n", p[0], p[1], gcd(p[0], p[1]), lcm(p[0], p[1])); i <- i + 1 end
+'''),
+ ('workload:queue-of-closures-as-objects', '''
+function task(id, cost) -> object begin let id = id; let left = cost; function step() -> begin this.left <- this.left - 1; this.left == 0 end end;
+let q = array(5, null); let i = 0;
+while i < 5 do begin q[i] <- task(i, 5 - i); i <- i + 1 end;
+let done = 0; let round = 0;
+while done < 5 do begin round <- round + 1; i <- 0; while i < 5 do begin let t = q[i]; if null != t then if t.step() then begin print("task ~ done in round ~\\n", t.id, round); q[i] <- null; done <- done + 1 end; i <- i + 1 end end;
+print("rounds ~\\n", round)
+'''),
+]
+
+
+def workload_programs():
+    return [{'name': n, 'text': ' '.join(x.split('\n')).strip(), 'ast': None} for n, x in WORKLOADS]
+
+
 def corpus():
-    return [{'name': 'corpus:' + n, 'text': t, 'ast': None} for n, t in corpus_sources()] + [{'name': n, 'text': t, 'ast': None} for n, t in EDGE + _limit_programs()]
+    return [{'name': 'corpus:' + n, 'text': t, 'ast': None} for n, t in corpus_sources()] + [{'name': n, 'text': t, 'ast': None} for n, t in EDGE + _limit_programs()] + workload_programs()
 
 
 def random_programs(n, base_seed=None, size=30, fault_rate=0.03, tag='gen'):
